@@ -12,6 +12,14 @@ os.PathLike / bytes, and every public way of re-basing: setter, `set_base_dir`, 
 `convert_tensors_from_external`; a clone shares the tensor objects).  Entry-point completeness
 (`body` lists ALL places where onnx_ir opens a location-derived path) is tied to /repo by the static
 scan in harness/c10.py (FILE_SITES / PATH_USERS), not by a theorem.
+
+Round 4: the kernel walk counts ALL symbolic links followed in one resolution (Linux: MAXSYMLINKS = 40
+in total, not a nesting depth); every theorem above was re-proved for it with unchanged statement, and
+`C10_eloop_counts_all_links` states the counting.  Added: `C10_world_chdir_opens` (histories with
+`os.chdir`), `C10_bytes_location` (a bytes location), and - for the check as repaired after D451 / D452 /
+D453 and the model with PATH_MAX at every `os.lstat` / `os.stat` - `C10_pathmax_verified_partial` and
+`C10_pathmax_safe` (safe open from the samestat + fixed-point cross-check, under the decidable
+hypothesis that the two `realpath` answers are link-free, evaluated on every generated case).
 -/
 import IrVerif.Lemmas.PathReal
 import IrVerif.Lemmas.PathLoad
@@ -706,8 +714,10 @@ theorem ex_guarded : guardedOpen exFS 40 40 (render []) [] "/b".toList "f".toLis
     have c2 : check2 exFS 40 40 (render []) [] "/b".toList "f".toList = true := by
       unfold check2; rw [hp, r1, r2]; decide
     have c3 : check3 exFS 40 40 (render []) [] "/b".toList "f".toList = true := by
+      have q1 := realpath_fixed_of_kresolve exFS 40 40 [] (RealDir.root exFS) _ _ hk (Nat.le_refl _)
+      have q2 := realpath_fixed_of_kresolve exFS 40 40 [] (RealDir.root exFS) _ _ hkb (Nat.le_refl _)
       unfold check3 statFile statId
-      rw [hp, r1, r2]
+      rw [hp, r1, r2, q1, q2]
       have e1 : kresolve exFS 40 [] (render [['b'], ['f']]) true = some [['b'], ['f']] := hk
       have e2 : kresolve exFS 40 [] (render [['b']]) true = some [['b']] := hkb
       rw [hk, hkb, e1, e2]
@@ -1020,8 +1030,12 @@ theorem checkContainment_fuel (fs : FS) (kfuel fuel fuel' : Nat) (cwd : Loc) (hc
     have r1' := (realpath_of_kresolve fs kfuel fuel' cwd hcwd _ kfuel l hp hf').1
     have r2 := (realpath_of_kresolve fs kfuel fuel cwd hcwd _ kfuel bl hbl hf).1
     have r2' := (realpath_of_kresolve fs kfuel fuel' cwd hcwd _ kfuel bl hbl hf').1
+    have q1 := realpath_fixed_of_kresolve fs kfuel fuel cwd hcwd _ l hp hf
+    have q1' := realpath_fixed_of_kresolve fs kfuel fuel' cwd hcwd _ l hp hf'
+    have q2 := realpath_fixed_of_kresolve fs kfuel fuel cwd hcwd _ bl hbl hf
+    have q2' := realpath_fixed_of_kresolve fs kfuel fuel' cwd hcwd _ bl hbl hf'
     unfold checkContainment check2 check3
-    rw [r1, r1', r2, r2']
+    rw [r1, r1', r2, r2', q1, q1', q2, q2']
 
 /-- **C10_fuel_discharged**: the recursion bound `fuel` of the transcribed `os.path.realpath` (a
 model artefact standing for CPython's recursion limit) is discharged by the kernel's bound `kfuel` on
@@ -1577,11 +1591,12 @@ namespace IrVerif.Path
 when it passes and the open that follows reaches the inode `i`, then `i` is a regular file with at most
 one link; the strings `os.path.realpath` returned for the path and for the base directory are shorter
 than PATH_MAX and the kernel resolves them; the resolved path names the very inode `i` and the resolved
-base directory names the very object the base directory does (the `samestat` cross-check); and the
-resolved path is, as a string, inside the resolved base directory.
-PARTIAL: not proved here is that a realpath answer which passes this cross-check contains no
-unresolved symbolic link below the resolved base (every component of an answer shorter than PATH_MAX
-was lstat'ed as a non-link when it was appended), which is what turns the above into `SafeOpen`; for
+base directory names the very object the base directory does (the `samestat` cross-check); both answers
+are fixed points of `realpath` (D453); and the resolved path is, as a string, inside the resolved base
+directory.
+PARTIAL: not proved here is that an answer which is a fixed point of this `realpath`, shorter than
+PATH_MAX and resolved by the kernel contains no symbolic link (the second resolution lstat's exactly
+the prefixes of the answer, all shorter than PATH_MAX), which is what turns the above into `SafeOpen`; for
 trees without names of PATH_MAX bytes or more the model without PATH_MAX in lstat / stat is exact and
 `C10_read_safe` / `C10_world_safe` apply.  The P model is compared with the real code on every run
 (family pathmax). -/
@@ -1595,6 +1610,10 @@ theorem C10_pathmax_verified_partial (fs : FS) (kfuel fuel : Nat) (cwdS : Str) (
     statId fs kfuel cwd (realpathP fs kfuel fuel cwdS cwd (tensorPath base loc)) = some (StatId.ino i) ∧
     (∃ c, statId fs kfuel cwd base = some c ∧
       statId fs kfuel cwd (realpathP fs kfuel fuel cwdS cwd base) = some c) ∧
+    realpathP fs kfuel fuel cwdS cwd (realpathP fs kfuel fuel cwdS cwd (tensorPath base loc)) =
+      realpathP fs kfuel fuel cwdS cwd (tensorPath base loc) ∧
+    realpathP fs kfuel fuel cwdS cwd (realpathP fs kfuel fuel cwdS cwd base) =
+      realpathP fs kfuel fuel cwdS cwd base ∧
     contained (realpathP fs kfuel fuel cwdS cwd base)
       (realpathP fs kfuel fuel cwdS cwd (tensorPath base loc)) = true := by
   obtain ⟨l, hk, hkind⟩ := openFile_some _ _ _ _ _ _ ho
@@ -1616,10 +1635,25 @@ theorem C10_pathmax_verified_partial (fs : FS) (kfuel fuel : Nat) (cwdS : Str) (
     unfold statFileP statFile
     simp only [hlen, if_false, hk]
     rcases hkind with ⟨hr, hg⟩ | ⟨hr, hg⟩ <;> simp [hg, hr]
+  have hreg : reg = true := by
+    cases reg with
+    | true => rfl
+    | false =>
+      exfalso
+      rw [hsf] at hv
+      simp only at hv
+      split at hv
+      · split at hv
+        · rename_i hall; simp at hall
+        · exact absurd hv (by simp)
+      · exact absurd hv (by simp)
+  subst hreg
   have hsi : statIdP fs kfuel cwd (tensorPath base loc) = some (StatId.ino i) := by
     unfold statIdP statId
     simp only [hlen, if_false, hk]
-    rcases hkind with ⟨_, hg⟩ | ⟨_, hg⟩ <;> simp [hg]
+    rcases hkind with ⟨_, hg⟩ | ⟨hr, _⟩
+    · simp [hg]
+    · exact absurd hr (by simp)
   rw [hsf, hsi] at hv
   simp only at hv
   have P_some : ∀ p x, statIdP fs kfuel cwd p = some x → p.length < PATH_MAX ∧ statId fs kfuel cwd p = some x := by
@@ -1642,11 +1676,168 @@ theorem C10_pathmax_verified_partial (fs : FS) (kfuel fuel : Nat) (cwdS : Str) (
         split at hv
         · rename_i hall
           simp only [Bool.and_eq_true, decide_eq_true_eq] at hall
-          obtain ⟨⟨⟨hab, hcd⟩, hn⟩, hr⟩ := hall
+          obtain ⟨⟨⟨⟨⟨hab, hcd⟩, hfp⟩, hfb⟩, hn⟩, hr⟩ := hall
           obtain ⟨lb, hbs⟩ := P_some _ _ hb2
           obtain ⟨_, hcs⟩ := P_some _ _ hc2
           obtain ⟨ld, hds⟩ := P_some _ _ hd2
-          exact ⟨hr, hn, lb, ld, by rw [hbs, ← hab], ⟨c, hcs, by rw [hds, hcd]⟩, hcont'⟩
+          exact ⟨rfl, hn, lb, ld, by rw [hbs, ← hab], ⟨c, hcs, by rw [hds, hcd]⟩, hfp, hfb, hcont'⟩
         · exact absurd hv (by simp)
+
+end IrVerif.Path
+
+/-! ### from the cross-check to a safe open, under the hypothesis that the two answers are link-free -/
+namespace IrVerif.Path
+
+theorem cleanB_clean (c : Str) (h : cleanB c = true) : Clean c := by
+  unfold cleanB at h
+  simp only [Bool.and_eq_true, bne_iff_ne, ne_eq, Bool.not_eq_true', List.contains_eq_mem,
+    decide_eq_false_iff_not] at h
+  exact ⟨h.1.1.1, h.1.1.2, h.1.2, h.2⟩
+
+/-- walking entry names none of which is a symbolic link just descends, through real directories -/
+theorem walk_linkfree (fs : FS) (f : Nat) : ∀ (suf : List Str) (pre l : Loc), Chain fs pre →
+    (∀ c ∈ suf, Clean c) →
+    (∀ k, k < suf.length → ∀ t, fs.get (pre ++ suf.take (k + 1)) ≠ some (Node.link t)) →
+    walk fs f pre suf true = some l → l = pre ++ suf ∧ Chain fs l := by
+  intro suf
+  induction suf with
+  | nil =>
+    intro pre l hc _ _ h
+    rw [walk_nil] at h; cases h
+    exact ⟨by simp, hc⟩
+  | cons c rest ih =>
+    intro pre l hc hcl hnl h
+    obtain ⟨hd, st⟩ := walk_cons_inv fs f pre c rest l h
+    have hcc : Clean c := hcl c (by simp)
+    cases st with
+    | skip h1 _ => exact absurd h1 (not_special_of_clean hcc).1
+    | up h2 _ => exact absurd h2 (not_special_of_clean hcc).2
+    | link t f' _ _ hn _ _ =>
+      have := hnl 0 (by simp) t
+      simp only [Nat.zero_add, List.take_succ_cons, List.take_zero] at this
+      exact absurd hn this
+    | plain n _ _ hn _ hw =>
+      have := ih (pre ++ [c]) l (Chain.snoc ⟨hc, hd⟩ hcc) (fun x hx => hcl x (by simp [hx]))
+        (by
+          intro k hk t
+          have := hnl (k + 1) (by simp; omega) t
+          simpa [List.take_succ_cons] using this) hw
+      exact ⟨by rw [this.1]; simp, this.2⟩
+
+/-- the kernel resolves a link-free answer to exactly the location it spells -/
+theorem kresolve_linkfree (fs : FS) (f : Nat) (cwd : Loc) (s : Str) (l : Loc)
+    (hlf : linkFreeAnswer fs s = true) (h : kresolve fs f cwd s true = some l) :
+    l = comps s ∧ Chain fs l := by
+  unfold linkFreeAnswer at hlf
+  simp only [Bool.and_eq_true, decide_eq_true_eq, List.all_eq_true, List.mem_range] at hlf
+  obtain ⟨⟨hs, hclean⟩, hnl⟩ := hlf
+  have hcl : ∀ c ∈ comps s, Clean c := fun c hc => cleanB_clean c (hclean c hc)
+  have hs' : s = render (comps s) := hs
+  generalize comps s = ls at *
+  subst hs'
+  have hnl' : ∀ k, k < ls.length → ∀ t, fs.get ([] ++ ls.take (k + 1)) ≠ some (Node.link t) := by
+    intro k hk t hg
+    have := hnl k hk
+    simp only [List.nil_append] at hg
+    rw [hg] at this
+    exact absurd this (by simp)
+  unfold kresolve at h
+  simp only [render_ne_nil, if_false, startLoc, isabs_render, if_true] at h
+  by_cases hne : ls = []
+  · subst hne
+    have e : render [] = ['/'] := by simp [render, joinSep]
+    rw [e] at h
+    have e2 : splitSep ['/'] = [[], []] := by decide
+    rw [e2, walk_step_skip fs f [] [] _ true fs.get_root (Or.inl rfl),
+      walk_step_skip fs f [] [] _ true fs.get_root (Or.inl rfl), walk_nil] at h
+    cases h
+    exact ⟨rfl, (RealDir.root fs).1⟩
+  · rw [splitSep_render _ hcl hne, walk_step_skip fs f [] [] _ true fs.get_root (Or.inl rfl)] at h
+    have := walk_linkfree fs f ls [] l (RealDir.root fs).1 hcl hnl' h
+    simpa using this
+
+theorem statId_ino (fs : FS) (f : Nat) (cwd : Loc) (p : Str) (i : Nat)
+    (h : statId fs f cwd p = some (StatId.ino i)) :
+    ∃ l, kresolve fs f cwd p true = some l ∧ fs.get l = some (Node.file i) := by
+  unfold statId at h
+  cases hk : kresolve fs f cwd p true with
+  | none => simp [hk] at h
+  | some l =>
+    simp only [hk] at h
+    cases hg : fs.get l with
+    | none => simp [hg] at h
+    | some n =>
+      cases n with
+      | file j => simp only [hg, Option.some.injEq, StatId.ino.injEq] at h; subst h; exact ⟨l, rfl, hg⟩
+      | other j => simp [hg] at h
+      | dir => simp [hg] at h
+      | link t => simp [hg] at h
+
+theorem statId_dir (fs : FS) (f : Nat) (cwd : Loc) (p : Str) (bl : Loc)
+    (h : statId fs f cwd p = some (StatId.dir bl)) :
+    kresolve fs f cwd p true = some bl ∧ fs.get bl = some Node.dir := by
+  unfold statId at h
+  cases hk : kresolve fs f cwd p true with
+  | none => simp [hk] at h
+  | some l =>
+    simp only [hk] at h
+    cases hg : fs.get l with
+    | none => simp [hg] at h
+    | some n =>
+      cases n with
+      | file j => simp [hg] at h
+      | other j => simp [hg] at h
+      | dir => simp only [hg, Option.some.injEq, StatId.dir.injEq] at h; subst h; exact ⟨rfl, hg⟩
+      | link t => simp [hg] at h
+
+/-- **C10_pathmax_safe**: the repaired check with PATH_MAX at every path operation (model
+`checkContainmentP`: an entry `os.path.realpath` cannot lstat is a non-link).  When the check passes
+and the open that follows reaches the inode `i`, and the two answers of `os.path.realpath` (for the
+path and for the base directory) are link-free (`linkFreeAnswer`: canonical absolute strings of entry
+names none of whose prefixes is a symbolic link in the tree - decidable, evaluated on every generated
+case and published as pathmax_linkfree=*; it is what the fixed-point condition of D453 is there to
+guarantee, and the one step not proved), then with sound link counts: `i` is a regular file with at
+most one link, its location `l` is the one the kernel resolves `join(base, loc)` to and is spelled by
+the resolved path; `l` is reached through real directories only; and `l` lies component-wise below the
+directory the kernel resolves the base directory to.  No assumption on the working directory, on
+lengths or on the recursion bound. -/
+theorem C10_pathmax_safe (fs : FS) (kfuel fuel : Nat) (cwdS : Str) (cwd : Loc) (base loc : Str)
+    (i : Nat) (reg : Bool) (hs : LinkCountSound fs)
+    (hv : checkContainmentP fs kfuel fuel cwdS cwd base loc = Verdict.pass) (hb : base ≠ [])
+    (ho : openFile fs kfuel cwd (tensorPath base loc) = some (i, reg))
+    (hlp : linkFreeAnswer fs (realpathP fs kfuel fuel cwdS cwd (tensorPath base loc)) = true)
+    (hlb : linkFreeAnswer fs (realpathP fs kfuel fuel cwdS cwd base) = true) :
+    ∃ l, kresolve fs kfuel cwd (tensorPath base loc) true = some l ∧ fs.get l = some (Node.file i) ∧
+      fs.nlink i ≤ 1 ∧ Chain fs l ∧
+      l = comps (realpathP fs kfuel fuel cwdS cwd (tensorPath base loc)) ∧
+      (∀ bl, kresolve fs kfuel cwd base true = some bl → fs.get bl = some Node.dir →
+        bl <+: l ∧ Chain fs bl) := by
+  obtain ⟨hreg, hn, _, _, hsid, ⟨c, hcb, hcbr⟩, _, _, hcont⟩ :=
+    C10_pathmax_verified_partial fs kfuel fuel cwdS cwd base loc i reg hv hb ho
+  obtain ⟨l, hk, hkind⟩ := openFile_some _ _ _ _ _ _ ho
+  have hg : fs.get l = some (Node.file i) := by
+    rcases hkind with ⟨_, hg⟩ | ⟨hr, _⟩
+    · exact hg
+    · rw [hreg] at hr; exact absurd hr (by simp)
+  obtain ⟨lr, hkr, hgr⟩ := statId_ino fs kfuel cwd _ i hsid
+  obtain ⟨hlr, hchain⟩ := kresolve_linkfree fs kfuel cwd _ lr hlp hkr
+  have hll : l = lr := by
+    apply Classical.byContradiction
+    intro hne
+    have := hs l lr i hne hg hgr
+    omega
+  subst hll
+  refine ⟨l, hk, hg, hn, hchain, hlr, ?_⟩
+  intro bl hkb hdir
+  have hsb : statId fs kfuel cwd base = some (StatId.dir bl) := by
+    unfold statId; simp [hkb, hdir]
+  rw [hsb] at hcb
+  cases hcb
+  obtain ⟨hkbr, _⟩ := statId_dir fs kfuel cwd _ bl hcbr
+  obtain ⟨hbl, hbchain⟩ := kresolve_linkfree fs kfuel cwd _ bl hlb hkbr
+  refine ⟨?_, hbchain⟩
+  have := contained_comps _ _ hcont
+  rw [← hbl, ← hlr] at this
+  exact this
 
 end IrVerif.Path
